@@ -48,3 +48,18 @@ def failing_op(g, ff, rg, out="fail.itp"):
         op["files"] = [("broken.ff", "[ moleculetype ]\nRA 1\n[ atoms ]\n1 P0 1 RA\n")]
     op["resgraph"] = None
     return op
+
+
+PROTEIN_RES = ["GLY", "ALA", "LYS", "SER", "VAL", "ASP", "PHE", "CYS"]
+
+
+def protein_graph(g):
+    """linear protein residue graph over martini3 amino acids (terminal modifications are applied by gen_params)"""
+    n = g.randint(2, 7)
+    seq = [g.choice(PROTEIN_RES) for _ in range(n)]
+    return {"shape": "linear", "resnames": seq, "edges": [[k, k + 1] for k in range(n - 1)]}
+
+
+def protein_op(g, rg, out="out.itp", **json_kw):
+    return {"op": "gen_params", "name": "PROT", "files": [], "lib": ["martini3"],
+            "graph": {"kind": "json", "text": ffgen.graph_json(rg, **json_kw)}, "out": out, "resgraph": rg}
